@@ -35,6 +35,13 @@ def instances(c: Contract):
         label = ','.join(f'{n}{s.describe()}' for n, s in inst.items() if len(c.params[n].alternatives()) > 1
                          or any(len(a.alternatives()) > 1 for a in getattr(c.params[n], 'fields', {}).values()))
         out.append((label, inst))
+    seen = {}
+    uniq = []
+    for label, inst in out:
+        k = seen.get(label, 0)
+        seen[label] = k + 1
+        uniq.append((label if k == 0 else f'{label}#{k}', inst))
+    out = uniq
     if c.max_instances and len(out) > c.max_instances:
         raise EngineError(f'{c.key}: {len(out)} instances exceed max_instances')
     return out
